@@ -19,6 +19,16 @@ CLAIMS = {
   text="Exploration: ten classes of byte streams (uniform bytes, GEDCOM-alphabet bytes, truncated and byte-mutated structured text, the adversarial shapes named in the property, 1 MB lines, 3000 nesting levels) x all option combinations, and every prefix of every adversarial constant exhaustively. Oracle: the call returns, exactly one of document/error is set, the error quotes the offending line with a line number consistent with the input, and the only accepted panic is 'indent is too large' while invalid indents are not allowed.",
   note="Trusted: reference scanner for locating the first unparsable line; either line-numbering convention (non-blank lines / all terminators) is accepted. Reader I/O errors are out of scope.",
   design="6.3"),
+ "C04": dict(
+  technique="grammar-based PBT with meaning known by construction: exhaustive keyword x case x shape x month-spelling enumeration, rapid-generated sentences and ranges, exhaustive near-miss lists",
+  text="Exploration: every keyword spelling x letter case x shape x month spelling x leading-zero form is enumerated with boundary numeric fields, random singles and ranges (4 between-words x 3 and-words, 1-4 spaces) are drawn with rapid, and ~14,000 near misses (unknown month words, day 0/32, impossible days incl. 29 Feb 1700/1800/1900, missing year, trailing text, alone and at either end of a range) must be invalid. The oracle never parses: day, month, year and constraint of both ends, the canonical spelling and the print-parse round trip are computed from the blueprint.",
+  note="Trusted: the generator's own spelling tables (copied from the Date documentation). Not covered because not clearly documented: years with leading zeros, >1 leading zero on days, >4 consecutive spaces.",
+  design="6.4"),
+ "C06": dict(
+  technique="exhaustive enumeration of all range pairs in day windows + rapid PBT over mixed granularities, against a 13-relation interval-algebra oracle with converse table",
+  text="Exploration: all ordered pairs [a,b] x [c,d] inside four 14-day (thorough 20-day) windows (leap day, year end, lower and upper limit of the calendar) are enumerated completely, and random forward ranges with day/month/year endpoints over years 1..9999 are drawn; the result must be one of the relations whose defining endpoint constraints (documentation diagram) hold, never Invalid, converse under operand swap, Equal on identical intervals, and exactly one simplified verdict must hold.",
+  note="Trusted: 13 predicates over civil-day numbers and the converse table in checks/c06; operand convention taken from TestDateRange_Compare. Backward ranges are outside the statement.",
+  design="6.6"),
  "C05": dict(
   technique="exhaustive enumeration of all days/months/years against an integer calendar oracle + rapid PBT for ordering and min/max",
   text="Exploration, exhaustive on the finite domain the property names: every one of the 3,652,059 days, 119,988 month-year and 9,999 year-only dates is built (struct and text route) and its bounds, length, Years containment and day-to-day monotonicity are compared with an integer Gregorian calendar cross-checked against time.Date; random day pairs and DateNodes lists cover IsBefore/IsAfter/Minimum/Maximum. Exhaustive sub-checks are marked in evidence.",
